@@ -43,3 +43,8 @@ class ModelAssociationException(ModelException):
 class DuplicateModelAssociationError(ModelException):
     """Associations should be unique as part of Model"""
     pass
+
+
+class MalCompilerError(MalToolboxException):
+    """The MAL source given to the compiler does not conform to the grammar."""
+    pass
